@@ -33,14 +33,30 @@ def check_grad(op, case, rec, f64_tol=1e-5, f32_tol=2e-3):
         rec.tag("g_constant")
     rec.nontrivial(o.data.size >= 2 and not gconst and op.nt(args, shp))
     passes = 2 if case.get("twice") else 1
+    first = None
     try:
-        for _ in range(passes):
+        for k in range(passes):
             o.backward(Tensor(g.copy()))
+            if k == 0 and passes == 2:
+                first = [None if t.grad is None else np.array(t.grad.data, dtype=np.float64) for t in ts]
     except Exception as e:  # noqa: BLE001
         raise Violation("backward_raised", f"forward accepted but backward(g) raised {type(e).__name__}: {e}; {ctx}")
     if passes == 2:
         rec.tag("backward_twice")
         ctx += " (backward called twice on the same graph: leaves accumulate)"
+        # metamorphic, independent of finite differences: the second call differentiates the same recorded function
+        # with the same g, so it must ADD exactly what the first one left (to rounding of one addition)
+        eps = 8 * float(np.finfo(dt).eps)
+        for i, t in enumerate(ts):
+            if first[i] is None or t.grad is None:
+                continue
+            now = np.asarray(t.grad.data, dtype=np.float64)
+            if now.shape != first[i].shape or np.any(np.abs(now - 2.0 * first[i]) > eps * np.maximum(np.abs(2.0 * first[i]), 1e-300) + 1e-300):
+                j = int(np.argmax(np.abs(now - 2.0 * first[i]))) if now.shape == first[i].shape and now.size else 0
+                raise Violation("second_backward_differs",
+                                f"operand {i}: after a second backward(g) through the same graph the accumulated gradient is not "
+                                f"twice the first: first={first[i].ravel()[j] if first[i].size else None!r} "
+                                f"now={now.ravel()[j] if now.size else None!r}; {ctx}")
 
     def f(arrs):
         with sg.no_grad():
